@@ -388,7 +388,7 @@ zif_open(const char *file)
 		return NULL;
 	} else if (fstat(fd, &st) < 0) {
 		goto cout;
-	} else if (st.st_size <= 20) {
+	} else if (st.st_size < (off_t)sizeof(struct zih_s)) {
 		goto cout;
 	}
 
@@ -411,16 +411,30 @@ zif_open(const char *file)
 		tmp.nlp = RDU32(hdr + offsetof(struct zih_s, tzh_leapcnt));
 		tmp.ntr = RDU32(hdr + offsetof(struct zih_s, tzh_timecnt));
 		tmp.nty = RDU32(hdr + offsetof(struct zih_s, tzh_typecnt));
-		hds += sizeof(struct zih_s);
-		hds += tmp.ntr * 4U;
-		hds += tmp.ntr;
-		hds += tmp.nty * (4U + 1U + 1U);
-		hds += RDU32(hdr + offsetof(struct zih_s, tzh_charcnt));
-		hds += tmp.nlp * (4U + 4U);
-		hds += RDU32(hdr + offsetof(struct zih_s, tzh_ttisstdcnt));
-		hds += RDU32(hdr + offsetof(struct zih_s, tzh_ttisgmtcnt));
+		{
+			/* skip the 32-bit data, minding the size of the file */
+			uint64_t skip = sizeof(struct zih_s);
+
+			skip += (uint64_t)tmp.ntr * 4U;
+			skip += (uint64_t)tmp.ntr;
+			skip += (uint64_t)tmp.nty * (4U + 1U + 1U);
+			skip += RDU32(hdr + offsetof(struct zih_s, tzh_charcnt));
+			skip += (uint64_t)tmp.nlp * (4U + 4U);
+			skip += RDU32(hdr + offsetof(struct zih_s, tzh_ttisstdcnt));
+			skip += RDU32(hdr + offsetof(struct zih_s, tzh_ttisgmtcnt));
+			if (UNLIKELY(skip > (uint64_t)st.st_size ||
+				     (uint64_t)st.st_size - skip <
+				     sizeof(struct zih_s))) {
+				goto unmp;
+			}
+			hds += skip;
+		}
 
 		if (UNLIKELY(memcmp(hds, TZ_MAGIC, 4U))) {
+			goto unmp;
+		} else if (hds[offsetof(struct zih_s, tzh_version)] !=
+			   hdr[offsetof(struct zih_s, tzh_version)]) {
+			/* both headers must agree on the layout */
 			goto unmp;
 		}
 		hdr = hds;
@@ -431,6 +445,18 @@ zif_open(const char *file)
 		break;
 	default:
 		goto unmp;
+	}
+	/* transitions, their types and the type details must be in the file */
+	{
+		const uint64_t tsz =
+			hdr[offsetof(struct zih_s, tzh_version)] ? 8U : 4U;
+		uint64_t need = (uint64_t)(hdr - map) + sizeof(struct zih_s);
+
+		need += (uint64_t)tmp.ntr * (tsz + 1U);
+		need += (uint64_t)tmp.nty * (4U + 1U + 1U);
+		if (UNLIKELY(!tmp.nty || need > (uint64_t)st.st_size)) {
+			goto unmp;
+		}
 	}
 	/* alloc space, don't read leaps just transitions and types */
 	res = malloc(sizeof(*res) +
@@ -476,6 +502,13 @@ zif_open(const char *file)
 			res->ofs[i] = RDI32(beef + 6U * i);
 		}
 		break;
+	}
+	/* every transition must name one of the NTY types */
+	for (size_t i = 0U; i < tmp.ntr; i++) {
+		if (UNLIKELY(res->tys[i] >= tmp.nty)) {
+			free(res);
+			goto unmp;
+		}
 	}
 	/* clean up */
 	munmap(map, st.st_size);
@@ -625,9 +658,7 @@ static stamp_t
 __tai_offs(stamp_t t)
 {
 	/* difference of TAI and UTC at epoch instant */
-	/* the table is keyed by 32-bit stamps, everything beyond is after the last entry */
-	const int32_t k = t > INT32_MAX ? INT32_MAX : t < INT32_MIN ? INT32_MIN : (int32_t)t;
-	zidx_t zi = leaps_before_si32(leaps_s, nleaps_corr, k);
+	zidx_t zi = leaps_before_si32(leaps_s, nleaps_corr, t);
 
 	return leaps_corr[zi];
 }
